@@ -2,7 +2,12 @@ use super::*;
 use crate::{base::rule::SentinelRule, logging, utils, Error, Result};
 use lazy_static::lazy_static;
 use std::collections::{HashMap, HashSet};
+#[cfg(not(flea1lt_sentinel_rust_verif))]
 use std::sync::{Arc, Mutex, RwLock};
+#[cfg(flea1lt_sentinel_rust_verif)]
+use std::sync::{Arc};
+#[cfg(flea1lt_sentinel_rust_verif)]
+use crate::verif::sync::{Mutex, RwLock};
 
 pub type BreakerGenFn =
     dyn Send + Sync + Fn(Arc<Rule>, Option<Arc<CounterLeapArray>>) -> Arc<dyn CircuitBreakerTrait>;
